@@ -9,3 +9,5 @@ import TempestVerif.Props.C06
 import TempestVerif.Props.C20
 import TempestVerif.Props.C05
 import TempestVerif.Props.C13
+import TempestVerif.Props.C03
+import TempestVerif.Props.C19
